@@ -187,6 +187,10 @@ func checkC18(c *Ctx) {
 		// format() texts whose last byte is a backslash (there are no string escapes), lone break codes
 		"text T {\n    format(\"Wait...\\\")\n}\n", "script S {\n    msgbox(format(\"a \\\\\"))\n    msgbox(format(\"\\\"))\n    msgbox(format(\"\\n\\\"))\n}\n",
 		"text T {\n    format(\"{\\\")\n}\ntext U {\n    format(\"x {A\\\")\n}\n",
+		// very large numeric parameters and multipliers
+		"text T {\n    format(\"Hello there you\", 4611686018427387904)\n}\ntext U {\n    format(\"Hello there you\", 9223372036854775807)\n}\n",
+		"script S {\n    msgbox(format(\"Hello there you\", numLines=9223372036854775807, cursorOverlapWidth=4611686018427387904))\n    msgbox(format(\"a b\", maxLineLength=99999999999999999999999))\n}\n",
+		"movement M {\n    walk_up * 9999\n    walk_up * 10000\n}\nmovement N {\n    walk_up * 99999999999999999999\n}\nmovement O {\n    walk_up * -1\n    walk_up * 0x10\n}\n",
 		// constants that name themselves or each other (what an editor sees mid-typing)
 		"const X = X\nscript S {\n    foo(X)\n    if (var(X) == X) {\n        bar\n    }\n}\n",
 		"const A = B\nconst B = A\nconst C = A\nscript S {\n    foo(A, B, C)\n    switch (var(A)) {\n        case B: x\n    }\n}\nmart M {\n    A\n    B\n}\n",
